@@ -208,6 +208,12 @@ def lzma2_layer(res, binary, hooked, tier, seed, prop, walks):
     extra = ["--framing-extremes"] if prop == "C17" else []
     rep = run_harness(binary, ["lzma2", "--property", prop, "--seed", seed, "--export", mc["out"], "--limit", tq(tier, 60000, 3000000), "--walks", walks] + extra, "%s_l2" % prop)
     res.add_harness(rep, "every exported chunk sequence selected for %s serialised by the spec-driven LZMA2 encoder -> lzma2_decompress / raw Lzma2Decoder / one-block .xz" % prop)
+    if tier == "thorough":
+        # the thorough bound trades program length for chunk count (3 chunks x 1 symbol); also run the quick bound (2 x 2)
+        mc2 = run_tlc("MC_Lzma2", "MC_Lzma2_quick.cfg", "%s_l2b" % prop, workers=14, timeout=3600)
+        res.add_tlc(mc2, "same model at 2 chunks x 2 symbols")
+        rep2 = run_harness(binary, ["lzma2", "--property", prop, "--seed", seed, "--export", mc2["out"], "--limit", 3000000], "%s_l2b" % prop)
+        res.add_harness(rep2, "behaviours of the 2 x 2 bound")
 
 def plan_C02(res, binary, hooked, tier, seed):
     lzma2_layer(res, binary, hooked, tier, seed, "C02", tq(tier, 60, 8000))
